@@ -231,6 +231,30 @@ Definition itake (fuel : nat) (st : istate) (i : nat) (c : count) : istate * obs
   | _ => (st, OBad)
   end.
 
+(* [iter(arg) for arg in args], left to right *)
+Fixpoint igather (st : istate) (args : list marg) : (istate * list iter) + (istate * obs) :=
+  match args with
+  | [] => inl (st, [])
+  | MFresh l :: r =>
+      match igather st r with
+      | inl (st', its) => inl (st', IList l :: its)
+      | inr e => inr e
+      end
+  | MObj j :: r =>
+      match igive st j with
+      | inl (Some (st1, it)) =>
+          match igather st1 r with
+          | inl (st', its) => inl (st', it :: its)
+          | inr e => inr e
+          end
+      | inl None => inr (st, OBad)
+      | inr e => inr (st, ORaise e)
+      end
+  end.
+(* itertools.chain(a, b, c ..) as nested two-argument chains *)
+Definition chain_of (its : list iter) : iter :=
+  match its with [] => IDone | a :: r => fold_left IChain r a end.
+
 Definition istep (fuel : nat) (st : istate) (o : op) : istate * obs :=
   match o with
   | ONext i =>
@@ -302,6 +326,25 @@ Definition istep (fuel : nat) (st : istate) (o : op) : istate * obs :=
       | _ => (st, OBad)
       end
   | OMutateResult _ => (st, OSelf)   (* take / peek build a new container from the items *)
+  | ORefused e => (st, ORaise e)     (* the exception is raised before any iterator is created or advanced *)
+  | OMulti tgt ((_ :: _ :: _) as args) =>
+      match tgt with
+      | None =>
+          match igather st args with
+          | inl (IS h os, its) => (IS h (os ++ [XStream (chain_of its)]), ONew (List.length (i_objs st)))
+          | inr (st', ob) => (st', ob)
+          end
+      | Some i =>
+          match nth_error (i_objs st) i with
+          | Some (XStream _) =>
+              match igather st args with
+              | inl (st', its) => iapply st' i (fun it => IOk (IChain it (chain_of its)))
+              | inr (st', ob) => (st', ob)
+              end
+          | _ => (st, OBad)
+          end
+      end
+  | OMulti _ _ => (st, OBad)
   end.
 
 Fixpoint irun (fuel : nat) (st : istate) (ops : list op) : list obs :=
